@@ -487,6 +487,24 @@ func (c13) Run(c *core.Case, env *core.Env) {
 				env.Violate("setup/trace", "%v", err)
 				return
 			}
+			// somebody watches the traces, from two connections when there
+			// are two: every event sent to a subscriber registered from now
+			// on makes the object emit a trace event on the way
+			for _, i := range []int{0, len(shared) - 1} {
+				_, tch, err := shared[i].SubscribeTraceObject()
+				if err != nil {
+					env.Violate("setup/trace", "subscribing to the traces: %v", err)
+					return
+				}
+				go func() {
+					for range tch {
+					}
+				}()
+				if len(shared) == 1 {
+					break
+				}
+			}
+			env.Probe("trace-subscribers")
 		}
 		env.Probe("object-instrumented")
 	}
